@@ -7,7 +7,15 @@ import numpy as np
 
 from . import terms
 from .exprenv import Builder, Pool, beta_dict, canonical
-from .rt import close
+from .rt import close as _close
+
+# The engine's normal CDF is only accurate to about 2e-9 in the upper tail (for x >= 6 it returns
+# 1 + (1 - Phi(x))), so values are compared at 1e-8 relative.
+VTOL = 1e-8
+
+
+def close(a, b, rel=VTOL, abs_=0.0):
+    return _close(a, b, rel=rel, abs_=abs_)
 
 POOL: Pool | None = None
 DB = None
@@ -67,7 +75,7 @@ def replay_values(rec) -> dict:
             for r in rows:
                 if not close(arr[r], want[r]):
                     mism.append(dict(path=path, point=p, row=r, got=float(arr[r]), want=want[r]))
-        if not close(float(agg.function), sum(want), rel=1e-9):
+        if not close(float(agg.function), sum(want)):
             mism.append(dict(path='get_value_and_derivatives(aggregation).function', point=p, got=float(agg.function), want=sum(want)))
         # pure-Python evaluator, where it accepts the formula
         b = Builder(pool, rec['ops'], share=True, init_point=p)
@@ -183,3 +191,85 @@ def replay_derivatives(rec) -> dict:
 
 def describe(rec) -> str:
     return canonical(rec['ops'], rec['root'], rec['nleaves'])
+
+
+def replay_biogeme_derivatives(rec) -> dict:
+    """C02 through BIOGEME.calculate_likelihood_and_derivatives, create_function and
+    create_objective_function; the literal ids crossing the boundary must be 0..K-1."""
+    import biogeme.biogeme as bio
+    from . import boundary
+
+    pool = POOL
+    mism = []
+    n = 0
+    if not rec['diff'] or not rec['freeocc']:
+        return dict(mismatches=[], n=0)
+    root = rec['root']
+    vals = expected_values(rec)
+    jets = expected_jets(rec)
+    rows = range(pool.nrows)
+    allnames = pool.free_names_sorted()
+    occ = [k - 1 for k in rec['freeocc']]
+    names = [allnames[k] for k in occ]
+    K = len(names)
+    e = Builder(pool, rec['ops'], share=True).build(root)
+    boundary.install()
+    boundary.reset()
+    b = bio.BIOGEME(DB, e)
+    b.generate_html = False
+    b.generate_pickle = False
+    b.save_iterations = False
+    if list(b.free_beta_names) != names:
+        mism.append(dict(path='BIOGEME.free_beta_names', got=list(b.free_beta_names), want=names))
+        return dict(mismatches=mism, n=1)
+    e2 = Builder(pool, rec['ops'], share=True).build(root)
+    fn = e2.create_function(database=DB, gradient=True, hessian=True, bhhh=True)
+    e3 = Builder(pool, rec['ops'], share=True).build(root)
+    obj = e3.create_objective_function(database=DB)
+    for p in range(pool.npoints):
+        if any(vals[r][p] is None or jets[r][p] is None for r in rows):
+            continue
+        betas = beta_dict(pool, p)
+        x = [betas[nm] for nm in names]
+        f = np.array([vals[r][p] for r in rows])
+        g = np.array([jets[r][p][0] for r in rows])[:, occ]
+        h = np.array([jets[r][p][1] for r in rows])[:, occ, :][:, :, occ]
+        if not (np.all(np.isfinite(g)) and np.all(np.isfinite(h))):
+            continue
+        bh = np.einsum('ri,rj->rij', g, g)
+        for scaled in (False, True):
+            div = float(len(f)) if scaled else 1.0
+            out = b.calculate_likelihood_and_derivatives(x, scaled=scaled, hessian=True, bhhh=True)
+            n += 1
+            path = f'BIOGEME.calculate_likelihood_and_derivatives(scaled={scaled})'
+            _cmp_vec(mism, path, p, 'function', [out.function], [f.sum() / div])
+            _cmp_vec(mism, path, p, 'gradient', out.gradient, g.sum(axis=0) / div)
+            _cmp_vec(mism, path, p, 'hessian', out.hessian, h.sum(axis=0) / div)
+            _cmp_vec(mism, path, p, 'bhhh', out.bhhh, bh.sum(axis=0) / div)
+        res = fn(np.array(x))
+        n += 1
+        _cmp_vec(mism, 'create_function', p, 'function', [res.function], [f.sum()])
+        for k, nm in enumerate(names):
+            if nm not in res.gradient:
+                mism.append(dict(path='create_function', point=p, what=f'gradient lacks {nm}'))
+                continue
+            _cmp_vec(mism, 'create_function', p, f'gradient[{nm}]', [res.gradient[nm]], [g.sum(axis=0)[k]])
+            for l, nm2 in enumerate(names):
+                _cmp_vec(mism, 'create_function', p, f'hessian[{nm}][{nm2}]', [res.hessian[nm][nm2]], [h.sum(axis=0)[k][l]])
+                _cmp_vec(mism, 'create_function', p, f'bhhh[{nm}][{nm2}]', [res.bhhh[nm][nm2]], [bh.sum(axis=0)[k][l]])
+        obj.set_variables(np.array(x, dtype=float))
+        fo = obj.f_g_h()
+        if fo is not None:
+            n += 1
+            _cmp_vec(mism, 'create_objective_function', p, 'function', [fo.function], [f.sum()])
+            _cmp_vec(mism, 'create_objective_function', p, 'gradient', fo.gradient, g.sum(axis=0))
+            _cmp_vec(mism, 'create_objective_function', p, 'hessian', fo.hessian, h.sum(axis=0))
+    for c in boundary.LOG:
+        if c['call'] == 'calculateLikelihoodAndDerivatives':
+            lit = list(c['args'][2]) if not isinstance(c['args'][2], list) else c['args'][2]
+            if [int(v) for v in lit] != list(range(K)):
+                mism.append(dict(path='boundary literalIds', got=lit, want=list(range(K))))
+            if len(c['args'][0]) != K:
+                mism.append(dict(path='boundary x length', got=len(c['args'][0]), want=K))
+    boundary.reset()
+    return dict(mismatches=mism, n=n)
